@@ -258,7 +258,7 @@ def inject(root, units, selected_units, selected_fns):
     upath = os.path.join(root, "units", rel.replace("/", "__"))
     open(upath, "w").write("\n".join(out))
     lines = get(u.file)
-    lines.append('#[cfg(kani)] #[path = "%s"] mod %s;' % (upath, u.modname()))
+    lines.append('#[cfg(kani)] #[path = "%s"] pub(crate) mod %s;' % (upath, u.modname()))
     diffs.append("%s: +1 line (mod %s -> %s)" % (u.file, u.modname(), rel))
     for ca in u.crateattrs:
       lines.insert(0, ca)
